@@ -38,6 +38,10 @@ CHECKS = {
    text="Purity.tla states evaluation as a pure action over prepared evaluators x caller scopes; TLC enumerates every history up to the bound (all orders, repetitions and interleavings: 1884 histories of 6 prepared scope-pushing expressions x 2 two-level scopes, 1464 of 4 invocables x 3 inputs of one shared model evaluator), the harness replays them on the real code and Trace_C13 validates the log against the machine: after every step every caller scope renders exactly as initially, every result equals the first result of its (evaluator, scope) pair, pushes and pops recorded by hook H3 balance, and a successful parse leaves the parsing scope as found; in addition every expression of the C01 fragment is evaluated twice in a two-context scope.",
    note="Scope content is compared through its textual rendering; hook H3 supplies push/pop counts. Trusts TLC and the hook.",
    technique="TLA+ purity state machine; TLC-generated histories replayed on the real code and validated as traces"),
+ "C03": dict(cat="exploration", design="DESIGN.md §5 C03",
+   text="DecisionTable.tla defines rule matching (every input entry satisfied, allowed input values) and the result per hit policy (U, A, F, P, R, O, C, C+, C<, C>, C#, default output, multi-output contexts, priority by output values) on top of FeelEval. TLC enumerates tables exhaustively over small scopes (every input-entry form x input value; one input over {1,2,3} with entries {-, 1, >=2}, outputs {10,20,30}, every rule list up to 2 (quick) / 3 (thorough) rules, every policy, with and without output values and default; two output components; two inputs); the harness writes each table as DMN XML, loads it through the model parser and evaluator, and TLC compares the decision's value with Result for every input tuple.",
+   note="Null input values and aggregators over zero hits are Unspec. Trusts TLC, the spec's reading of DMN 8.2, the harness XML writer.",
+   technique="TLA+ specification of hit policies as oracle; tables enumerated by TLC, evaluated by the real model evaluator through DMN XML"),
 }
 NOT_YET = {}
 props = [json.loads(l) for l in open('/verif/properties.jsonl')]
